@@ -28,6 +28,7 @@ def main():
         print("unknown property", prop)
         sys.exit(2)
     t0 = time.time()
+    C.set_tier(args.tier)
     if args.replay:
         sys.exit(props.replay(prop, args.replay))
     bs = C.BuildState()
